@@ -9,6 +9,7 @@ import (
 	"fmt"
 	"io"
 	"strings"
+	"unicode/utf16"
 )
 
 // Well-known namespaces.
@@ -132,8 +133,26 @@ func ParseXML(data []byte) (*Node, []XMLProblem) {
 	}
 	// a byte order mark may stand at the very start of the entity and nowhere else in the prolog
 	data = bytes.TrimPrefix(data, []byte("\xef\xbb\xbf"))
+	utf16Part := false
+	if len(data) >= 2 && ((data[0] == 0xff && data[1] == 0xfe) || (data[0] == 0xfe && data[1] == 0xff)) {
+		// UTF-16 with byte order mark (the other encoding OPC allows): read as the characters it encodes
+		le := data[0] == 0xff
+		u := make([]uint16, 0, len(data)/2)
+		for i := 2; i+1 < len(data); i += 2 {
+			if le {
+				u = append(u, uint16(data[i])|uint16(data[i+1])<<8)
+			} else {
+				u = append(u, uint16(data[i])<<8|uint16(data[i+1]))
+			}
+		}
+		data = []byte(string(utf16.Decode(u)))
+		utf16Part = true
+	}
 	dec := xml.NewDecoder(bytes.NewReader(data))
 	dec.Strict = true
+	if utf16Part {
+		dec.CharsetReader = func(label string, input io.Reader) (io.Reader, error) { return input, nil }
+	}
 	type frame struct {
 		raw  xml.Name
 		ns   map[string]string
